@@ -15,6 +15,7 @@ exception; by `convolver_defined_iff` that is: odd kernel and every footprint in
 import Model.Convolution
 import Proofs.ConvolutionMain
 import Proofs.ConvolutionLinear
+import Proofs.ConvolutionPipeline
 
 open Model
 
@@ -261,6 +262,115 @@ theorem convolve_matrix_is_linear [DecidableEq α] (cv : Impl.Convolver α) (nro
         rfl
       rw [h1, h1, h1]; ring
   · simpa using ht
+
+/-! ## (e, end to end) simulate → mask → fit, as the code composes it
+
+`Impl.simulateAndFit` (Model/ConvolutionPipeline.lean) composes the transliterations of
+`SimulatorImaging.__init__` / `via_image_from` (noise switches off, background sky added and
+subtracted), `Kernel2D.__init__` normalisation, `Kernel2D.convolved_array_from`, `Imaging.__init__`,
+`Imaging.apply_mask`, `Imaging.convolver` and `Convolver.convolve_image`, WITH repair D153.
+`scipy.signal.convolve2d(mode="same")` is the parameter `scipy`; its contract is the hypothesis
+`Conv2dSameContract scipy`, satisfied by `Spec.convSameFn` (`convSameFn_contract`). -/
+
+section Pipeline
+variable {F : Type} [Field F]
+
+/-- (e, full strength) for every image, every odd kernel (any shape, any sign; normalised by the
+    simulator or not — if it is, its entries must not sum to zero), every mask whose kernel
+    footprints stay inside the frame, every background sky level / exposure time: the dataset
+    simulated noise-free from the image and then masked is fitted with EXACTLY zero residual by
+    `convolver.convolve_image(image on the mask, image on the blurring mask)`.  Moreover the simulated
+    data are the whole-frame convolution with the pipeline's one PSF `kernel2d K normalize_psf`, the
+    masked data are its gather at the mask, and that PSF is the one the masked dataset holds. -/
+theorem pipeline_zero_residual (scipy : Conv2dSame F) (hscipy : Conv2dSameContract scipy)
+    (exposureTime backgroundSky noiseLevel : F) (K : Kernel F) (normalizePsf : Bool)
+    (hkh : K.h % 2 = 1) (hkw : K.w % 2 = 1)
+    (hsum : normalizePsf = true → Impl.kernelSum K ≠ 0) (mask : Mask) (image : List F)
+    (hin : ∀ p : Nat × Nat, p.1 < mask.h → p.2 < mask.w → mask.get p.1 p.2 = false →
+      Spec.footprintInside mask.h mask.w K.h K.w p) :
+    ∃ obs, Impl.simulateAndFit scipy exposureTime backgroundSky true K normalizePsf noiseLevel mask image
+        = .ok obs
+      ∧ obs.psf = Impl.kernel2d K normalizePsf
+      ∧ obs.simulated = (pixels mask.h mask.w).map
+          (fun p => Spec.conv2 mask.h mask.w (Impl.kernel2d K normalizePsf) image p)
+      ∧ obs.data = Impl.slimFrom mask obs.simulated 0
+      ∧ obs.residual.length = Impl.totalPixels mask
+      ∧ ∀ k, obs.residual.getD k 0 = 0 := by
+  rw [totalPixels_eq]
+  exact simulateAndFit_spec scipy hscipy exposureTime backgroundSky noiseLevel K normalizePsf hkh hkw
+    hsum mask image hin
+
+/-- normalisation is applied exactly once along the pipeline: the code normalises at up to three
+    places (`SimulatorImaging.__init__`, `Imaging.__init__` in `via_image_from`, `Imaging.__init__` in
+    `apply_mask`), yet the simulator, the simulated dataset and the masked dataset all hold the same
+    PSF `kernel2d K normalize_psf` — `K / ΣK` when `normalize_psf`, `K` itself otherwise — because
+    re-normalising a normalised kernel is the identity and the flag is forwarded. -/
+theorem pipeline_psf_normalised_once (scipy : Conv2dSame F) (hscipy : Conv2dSameContract scipy)
+    (exposureTime backgroundSky noiseLevel : F) (K : Kernel F) (normalizePsf : Bool)
+    (hkh : K.h % 2 = 1) (hkw : K.w % 2 = 1)
+    (hsum : normalizePsf = true → Impl.kernelSum K ≠ 0) (mask : Mask) (image : List F)
+    (hin : ∀ p : Nat × Nat, p.1 < mask.h → p.2 < mask.w → mask.get p.1 p.2 = false →
+      Spec.footprintInside mask.h mask.w K.h K.w p) :
+    (normalizePsf = true →
+        Impl.kernelSum (Impl.kernel2d K true) = 1
+        ∧ Impl.kernel2d (Impl.kernel2d K true) true = Impl.kernel2d K true)
+    ∧ (Impl.simulatorInit exposureTime backgroundSky true K normalizePsf noiseLevel).psf
+        = Impl.kernel2d K normalizePsf
+    ∧ ∃ ds, Impl.viaImageFrom scipy
+          (Impl.simulatorInit exposureTime backgroundSky true K normalizePsf noiseLevel)
+          mask.h mask.w image = .ok ds
+        ∧ ds.psf = Impl.kernel2d K normalizePsf
+        ∧ ∃ masked, Impl.applyMaskDs ds mask = .ok masked
+            ∧ masked.psf = Impl.kernel2d K normalizePsf
+            ∧ masked.useNormalizedPsf = normalizePsf := by
+  refine ⟨fun h => ⟨kernelSum_normalized K (hsum h), kernel2d_idem K (hsum h)⟩, ?_, ?_⟩
+  · cases normalizePsf <;> rfl
+  · have hh : (Impl.kernel2d K normalizePsf).h % 2 = 1 := by rw [kernel2d_h]; exact hkh
+    have hw : (Impl.kernel2d K normalizePsf).w % 2 = 1 := by rw [kernel2d_w]; exact hkw
+    have hin' : ∀ p : Nat × Nat, p.1 < mask.h → p.2 < mask.w → mask.get p.1 p.2 = false →
+        Spec.footprintInside mask.h mask.w (Impl.kernel2d K normalizePsf).h
+          (Impl.kernel2d K normalizePsf).w p := by
+      rw [kernel2d_h, kernel2d_w]; exact hin
+    refine ⟨_, viaImageFrom_ok scipy hscipy exposureTime backgroundSky noiseLevel K normalizePsf hkh hkw
+      hsum mask.h mask.w image, rfl, ?_⟩
+    refine ⟨_, applyMask_ok _ mask mask.h mask.w rfl (by simp [pixels_length]) (by simp)
+      (blurringFrom_ok_of_inside mask hh hw hin'), ?_, rfl⟩
+    exact kernel2d_idem' K normalizePsf hsum
+
+/-- an even kernel side is rejected by the simulator's whole-frame convolution — the pipeline
+    yields the `KernelException`, never a dataset. -/
+theorem pipeline_even_kernel_rejected (scipy : Conv2dSame F) (exposureTime backgroundSky noiseLevel : F)
+    (subtract : Bool) (K : Kernel F) (normalizePsf : Bool) (h : K.h % 2 = 0 ∨ K.w % 2 = 0)
+    (mask : Mask) (image : List F) :
+    Impl.simulateAndFit scipy exposureTime backgroundSky subtract K normalizePsf noiseLevel mask image
+      = .error .evenKernel := by
+  have hpsf : ∀ b, (Impl.simulatorInit exposureTime backgroundSky subtract K b noiseLevel).psf
+      = Impl.kernel2d K b := by intro b; cases b <;> rfl
+  have hev : ((Impl.kernel2d K normalizePsf).h % 2 == 0 || (Impl.kernel2d K normalizePsf).w % 2 == 0)
+      = true := by
+    rw [kernel2d_h, kernel2d_w]
+    rcases h with h | h <;> simp [h]
+  unfold Impl.simulateAndFit Impl.simulateAndFitWith Impl.viaImageFromWith Impl.convolvedArrayFrom
+  simp only [hpsf, hev, if_true]
+
+end Pipeline
+
+/-- the contract hypothesis is satisfiable: the instance the driver executes meets it. -/
+example : Conv2dSameContract (Spec.convSameFn (α := Rat)) := convSameFn_contract
+
+/-- defect D153 (repaired): pre-repair plumbing (`use_normalized_psf` left at its default `True` in
+    `via_image_from` and in `apply_mask`) with `normalize_psf=False` and a kernel summing to 2: the
+    data are simulated with `K = [2]` but the masked dataset holds `K/2 = [1]`, the residual is the
+    image itself; the repaired plumbing keeps `[2]` and the residual vanishes.  (Evaluated over ℤ,
+    where the single division 2/2 is exact.) -/
+theorem d153_pre_repair_witness :
+    let m : Mask := ⟨1, 2, [false, true]⟩
+    let K : Kernel Int := ⟨1, 1, [2]⟩
+    (∃ obs, Impl.simulateAndFitWith false Spec.convSameFn 1 100 true K false 0 m [3, 5] = .ok obs
+        ∧ obs.simulated = [6, 10] ∧ obs.psf.vals = [1] ∧ obs.model = [3] ∧ obs.residual = [3])
+    ∧ (∃ obs, Impl.simulateAndFit Spec.convSameFn 1 100 true K false 0 m [3, 5] = .ok obs
+        ∧ obs.simulated = [6, 10] ∧ obs.psf.vals = [2] ∧ obs.model = [6] ∧ obs.residual = [0]) := by
+  refine ⟨⟨_, rfl, ?_, ?_, ?_, ?_⟩, ⟨_, rfl, ?_, ?_, ?_, ?_⟩⟩ <;> decide
 
 /-! ## non-vacuity: a concrete signed, non-square, asymmetric instance meets every hypothesis -/
 
